@@ -323,7 +323,12 @@ def stmt_facts(src, tree, st):
                     break
     except (tokenize.TokenError, IndentationError, SyntaxError):
         pass
-    return shares, sole, is_elif
+    risky = False
+    for n in ast.walk(st):
+        if isinstance(n, ast.BinOp) and isinstance(n.op, ast.Mod) and isinstance(n.left, ast.Constant) and isinstance(n.left.value, str):
+            if "%d" in n.left.value or not isinstance(n.right, ast.Tuple):
+                risky = True
+    return shares, sole, is_elif, risky
 
 
 def dump_without(tree, st, placeholder):
@@ -493,10 +498,10 @@ def gen_ignore_programs(ctx):
     # 3. pairs of safe templates in one function (adjacent diagnostics: comment above comment situations)
     pairs = list(itertools.product(range(len(T_SAFE)), repeat=2))
     rng.shuffle(pairs)
-    for i, j in pairs[:ctx.n(12, 100)]:
+    for i, j in pairs[:ctx.n(12, 200)]:
         progs.append(("pair", build_program([], [[T_SAFE[i][1], T_SAFE[j][1]]], []), True))
     # 4. seeded random larger programs
-    for _ in range(ctx.n(45, 400)):
+    for _ in range(ctx.n(45, 1000)):
         r = rng.random()
         pool = T_SAFE + T_NEUTRAL
         special = None
@@ -572,6 +577,12 @@ F_SHARED = [
     ("fstr-if-oneline", ["if a: return \"%s\" % a", "return b"]),
     ("fstr-else-oneline", ["if a:", "    return 1", "else: return \"%s\" % b"]),
 ]
+F_PCT = [
+    ("fstr-d-float", ["h = c / 2", "return \"%d\" % h"]),
+    ("fstr-d-bool", ["h = a > 1", "return \"%d items\" % h"]),
+    ("fstr-s-tuple", ["t = (a,)", "return \"%s\" % t"]),
+    ("fstr-s-tuple2", ["t = (a, b)", "try:", "    return \"%s\" % t", "except TypeError:", "    return \"E\""]),
+]
 F_ELIF = [
     ("fstr-elif", ["if a:", "    x = 1", "elif \"%s\" % b:", "    x = 2", "else:", "    x = 3", "return x"]),
     ("fstr-elif-chain", ["x = 0", "if a == 3:", "    x = 1", "elif a == 0:", "    x = 2", "elif \"%s\" % b:", "    x = 3", "return x"]),
@@ -590,13 +601,13 @@ def build_fix_program(bodies, header=(), tail=()):
 def gen_fix_programs(ctx):
     rng = ctx.rng
     progs = []
-    allf = F_OK + F_EMPTY + F_RANGE + F_SHARED + F_ELIF
+    allf = F_OK + F_EMPTY + F_RANGE + F_SHARED + F_ELIF + F_PCT
     for name, b in allf:
         progs.append(("single:" + name, build_fix_program([b])))
     # first line / last line of the file
     progs.append(("first-line", ["x0 = \"%s\" % __name__"] + build_fix_program([F_OK[0][1]])))
     progs.append(("last-line", build_fix_program([F_OK[8][1]], tail=["def t9(a, b, c): return \"%s\" % a"])))
-    for _ in range(ctx.n(25, 250)):
+    for _ in range(ctx.n(25, 600)):
         r = rng.random()
         pool = F_OK if r < 0.7 else allf
         progs.append(("random", build_fix_program([rng.choice(pool)[1] for _ in range(rng.randint(2, 4))])))
@@ -802,7 +813,7 @@ def fix_case(ctx, case, lines, with_model, cap):
         old_tree = ast.parse(cur)
         new_tree = try_parse(new)
         st = find_stmt(old_tree, info) if info else None
-        facts = stmt_facts(cur, old_tree, st) if st is not None else (False, False, False)
+        facts = stmt_facts(cur, old_tree, st) if st is not None else (False, False, False, False)
         if info is None or st is None:
             ctx.tag("fix_without_statement_record")
         if new_tree is None:
@@ -850,9 +861,9 @@ def fix_case(ctx, case, lines, with_model, cap):
                 if c_new > c_old - 1:
                     problems.append(("still", "round %d: the diagnostic that proposed the fix (%s: %s) is still reported" % (k, key[0], key[1])))
         if info is not None:
-            pending.append(("X", case, k, "X|%s|%d|%d|%s|%d%d%d" % (
+            pending.append(("X", case, k, "X|%s|%d|%d|%s|%d%d%d%d" % (
                 enc_lines(cl), info["lineno"], info["end_lineno"], enc_adds(None if first[1] is None else strip_nl(first[1])),
-                int(facts[0]), int(facts[1]), int(facts[2])), problems, first[0]))
+                int(facts[0]), int(facts[1]), int(facts[2]), int(facts[3] and code == "use_fstrings")), problems, first[0]))
             pending.append(("R", case, k, "R|%s|%d|%d|%d" % (enc_lines(cl), info["lineno"], info["end_lineno"], info["end_lineno"]),
                             first[0], None))
         elif problems:
@@ -866,7 +877,7 @@ def fix_case(ctx, case, lines, with_model, cap):
 FIX_KIND_CLASSES = {
     "parse": ["emptyBlock", "stmtRange", "sharedLine"],
     "locality": ["stmtRange", "sharedLine", "elifHeader", "emptyBlock"],
-    "behaviour": ["stmtRange", "sharedLine", "elifHeader"],
+    "behaviour": ["stmtRange", "sharedLine", "elifHeader", "fstringConversion"],
     "still": ["stmtRange"],
 }
 
@@ -934,7 +945,7 @@ def apply_cases(ctx):
     if len(cases) > cap:
         rng.shuffle(cases)
         cases = cases[:cap]
-    for _ in range(ctx.n(700, 8000)):
+    for _ in range(ctx.n(700, 20000)):
         n = rng.randint(0, 8)
         f = ["l%d" % i for i in range(n)]
         chs = []
@@ -1009,7 +1020,7 @@ def run_range(ctx, programs, with_model):
                     got = "EXC:" + type(e).__name__
                 last = max([getattr(c, "end_lineno", None) or getattr(c, "lineno", 0) for c in ast.walk(n)] + [0])
                 items.append((lines, n.lineno, last, n.end_lineno, got))
-    cap = ctx.n(1500, 15000)
+    cap = ctx.n(1500, 30000)
     if len(items) > cap:
         ctx.rng.shuffle(items)
         items = items[:cap]
